@@ -1,3 +1,26 @@
-(* GENERATED: harness/props/C03.py:translate could not read mdtraj/core/trajectory.py
-   (unbound name rmsd_traces); the data-flow tie is degraded to the correspondence run. *)
-Definition translator_degraded := true.
+(* GENERATED on every run by harness/props/C03.py:translate from mdtraj/core/trajectory.py -- do not edit.
+   Field data-flow of Trajectory.slice / join / stack / atom_slice and the cache effects of the in-place methods
+   (term language and its semantics: MD.Traj.Flow; soundness of the checkers: MD.Traj.FlowProofs). *)
+Require Import MD.Traj.Model MD.Traj.Flow.
+
+Definition slice_flow : flow := mkFlow (FCopyIf (FIdx (FField OSelf SXyz))) (FCopyIf (FIdx (FField OSelf STime))) (FCopyIf (FIdx (FField OSelf SLen))) (FCopyIf (FIdx (FField OSelf SAng))) (FCopyIf (FField OSelf STop)) (FCopyIf (FArr1 (FIdx (FField OSelf STraces)))).
+Definition join_flow : flow := mkFlow (FConcat SXyz) (FConcat STime) (FConcat SLen) (FConcat SAng) (FDeep (FField OSelf STop)) FNone.
+Definition stack_flow : flow := mkFlow FHstack (FField OSelf STime) (FField OSelf SLen) (FField OSelf SAng) FTopJoin FNone.
+Definition atom_slice_flow : flow := mkFlow (FCopy (FAtoms (FField OSelf SXyz))) (FCopy (FField OSelf STime)) (FCopy (FField OSelf SLen)) (FCopy (FField OSelf SAng)) FSubset FNone.
+Definition inplace_effects : effects :=
+  mkEffects (FEnsure FArg) FNone
+            (FCopy (FAtoms (FField OSelf SXyz))) FNone
+            FCentred (FSetter FArg) (FSetter FArg)
+            true false false.
+
+(* each extracted term passes the checker, hence (FlowProofs.check_*_sound) denotes the model's operation *)
+Lemma slice_flow_checks : check_slice slice_flow = true.
+Proof. vm_compute. reflexivity. Qed.
+Lemma join_flow_checks : check_join join_flow = true.
+Proof. vm_compute. reflexivity. Qed.
+Lemma stack_flow_checks : check_stack stack_flow = true.
+Proof. vm_compute. reflexivity. Qed.
+Lemma atom_slice_flow_checks : check_atom_slice atom_slice_flow = true.
+Proof. vm_compute. reflexivity. Qed.
+Lemma inplace_effects_check : check_effects inplace_effects = true.
+Proof. vm_compute. reflexivity. Qed.
